@@ -89,4 +89,43 @@ theorem rearm_needed :
     (simulate 1000 false [⟨600, stat⟩, ⟨600, stat⟩] 0 0 [] 0 = ⟨1, some 1000⟩) := by
   decide
 
+/-- **A client that stops reading is cut**: as soon as one write of a response stays blocked for T,
+    the connection ends — like a silent client, it cannot hold the connection and its files. -/
+theorem stalled_reader_cut (T : Nat) (hT : T ≠ 0) (before after : List Nat) (g : Nat) (hg : g ≥ T)
+    (hb : ∀ x ∈ before, x < T) :
+    writeOut T (before ++ g :: after) = (before.length, true) := by
+  have hT' : (T != 0) = true := by simpa using hT
+  induction before with
+  | nil => simp [writeOut, hT', hg]
+  | cons b bs ih =>
+    have hb' : b < T := hb b (by simp)
+    have : ¬ (b ≥ T) := by omega
+    simp only [List.cons_append, writeOut, hT', Bool.true_and, decide_eq_true_eq, this, if_false, List.length_cons]
+    rw [ih (fun x hx => hb x (by simp [hx]))]
+
+/-- **A client that keeps draining is never cut, however long the response takes in total**: the
+    deadline is per write, not per response (a response may take many multiples of T). -/
+theorem draining_reader_never_cut (T : Nat) (gaps : List Nat) (h : ∀ x ∈ gaps, x < T) :
+    writeOut T gaps = (gaps.length, false) := by
+  induction gaps with
+  | nil => rfl
+  | cons b bs ih =>
+    have hb' : b < T := h b (by simp)
+    have : ¬ (b ≥ T) := by omega
+    rw [writeOut, ih (fun x hx => h x (by simp [hx]))]
+    simp [this]
+
+/-- without a timeout no write is ever cut -/
+theorem no_timeout_write_never_cut (gaps : List Nat) : writeOut 0 gaps = (gaps.length, false) := by
+  induction gaps with
+  | nil => rfl
+  | cons b bs ih => simp [writeOut, ih]
+
+/-- non-vacuity: 3 quick writes, then a stall of 2T; and 1000 slow-but-draining writes (total 900 T/ms) -/
+example : writeOut 300 [0, 5, 0, 600, 0] = (3, true) ∧
+    writeOut 300 (List.replicate 1000 270) = ((List.replicate 1000 270).length, false) := by
+  constructor
+  · decide
+  · exact draining_reader_never_cut 300 _ (by intro x hx; rw [List.eq_of_mem_replicate hx]; omega)
+
 end Ps3.Props.C16
